@@ -11,7 +11,7 @@
     [static_max] over every compile-time cap, [conf] over every assignment of filters to collectors;
     [wf_collector] is the property's own side condition (self-consistent filter, hint a true upper bound). *)
 From Coq Require Import NArith List String.
-From TV Require Import Dispatch.Model Dispatch.Shape Dispatch.Source Dispatch.Proofs_C01 Dispatch.Proofs_Shape.
+From TV Require Import Dispatch.Model Dispatch.Shape Dispatch.Source Dispatch.Proofs_C01 Dispatch.Proofs_C02 Dispatch.Proofs_Shape.
 From TVGen Require Import Gen_dispatch.
 Import ListNotations.
 Local Open Scope N_scope.
@@ -120,6 +120,18 @@ Theorem C01_verdict_ignores_kind :
   own_verdict static_max (conf_of_list l) s t {| cs_id := id2; cs_lvl := lvl; cs_tgt := tgt; cs_kind := k2 |}.
 Proof. exact structured_verdict_ignores_kind. Qed.
 Print Assumptions C01_verdict_ignores_kind.
+
+(** `Dispatch::from_static` collectors (zero-sized unit structs in a static are the usual way to write them): the
+    registrar of a static collector always upgrades, i.e. it is a collector that never loses its last strong reference.
+    In the model that is a collector whose handle is never dropped; in every history without such a drop it stays live,
+    so it is listed and asked at every first hit and every rebuild, and the headline above covers it like any other
+    collector.  (The correspondence creates such collectors with `Dispatch::from_static` and never drops them.) *)
+Theorem C01_static_collector_stays_live :
+  forall fx sm conf h s c,
+  (forall c', In (DropHandle c') h -> c' <> c) -> handle s c = true ->
+  handle (final fx sm conf s h) c = true /\ live (final fx sm conf s h) c = true.
+Proof. exact static_collector_stays_live. Qed.
+Print Assumptions C01_static_collector_stays_live.
 
 (** * The hand-written model against the source as READ ON THIS RUN (coq/gen/Gen_dispatch.v is regenerated from
       macros.rs, lib.rs, callsite.rs, collect.rs, level_filters.rs by translators/dispatch_shape.py). *)
